@@ -135,6 +135,27 @@ def universe(chk, n_random, depth=3):
 
 # ---------------------------------------------------------------------------
 
+def with_comments(rng, v, top=True):
+    """The same tree with comment(x, 'note') / trailing_comment(x, 'tail') wrappers on list / tuple items and dict
+    values (not on set members: the wrappers would change the iteration order). Comments are inert, so the
+    truncated value and the notices are those of the plain tree."""
+    t = type(v)
+    if t is list:
+        w = [with_comments(rng, x, False) for x in v]
+    elif t is tuple:
+        w = tuple(with_comments(rng, x, False) for x in v)
+    elif t is dict:
+        w = {k: with_comments(rng, x, False) for k, x in v.items()}
+    else:
+        return P.comment(v, 'note') if (not top and rng.random() < 0.3) else v
+    r = rng.random()
+    if r < 0.45:
+        w = P.comment(w, 'note')
+    elif r < 0.6 and len(v):
+        w = P.trailing_comment(w, 'tail')
+    return w
+
+
 def check_c10(chk, args):
     q = chk.tier == 'quick'
     rng = chk.rng
@@ -142,7 +163,11 @@ def check_c10(chk, args):
     cases = {}
     meta = {}
     nprints = 0
-    for vi, v in enumerate(vals):
+    printed = [(v, v) for v in vals]
+    # truncation x comments: the same trees with comment wrappers (dict values in particular are rendered a second
+    # time, lazily, when their comment goes on a line of its own)
+    printed += [(with_comments(rng, v), v) for v in vals[::2] if type(v) in (list, tuple, dict) and maxlen_of(v) >= 1]
+    for vi, (pv, v) in enumerate(printed):
         ml = maxlen_of(v)
         for N in list(range(1, ml + 2)) + [None]:
             for w in ((1, 20, 79) if not q else (rng.choice([1, 20]), 79)):
@@ -151,15 +176,15 @@ def check_c10(chk, args):
                         continue
                     nprints += 1
                     cfg = {'width': w, 'max_seq_len': N, 'sort_dict_keys': srt}
-                    desc = {'value': repr(v)[:300], 'config': cfg}
-                    out = safe_print(chk, 'C10', v, desc, **cfg)
+                    desc = {'value': repr(v)[:300], 'config': cfg, 'commented': pv is not v}
+                    out = safe_print(chk, 'C10', pv, desc, **cfg)
                     if out is None:
                         continue
                     desc['output'] = out
                     if N is None:
                         if 'warnings' in desc:
                             chk.violation('C10.none', 'max_seq_len=None produced a warning: %r' % (desc,), desc)
-                        big = safe_print(chk, 'C10', v, dict(desc), width=w, max_seq_len=ml + 1, sort_dict_keys=srt)
+                        big = safe_print(chk, 'C10', pv, dict(desc), width=w, max_seq_len=ml + 1, sort_dict_keys=srt)
                         if big is not None and big != out:
                             chk.violation('C10.none', 'max_seq_len=None differs from a limit larger than every '
                                           'container: %r vs %r for %.200r' % (out, big, v), desc)
@@ -175,6 +200,8 @@ def check_c10(chk, args):
                         words = ' '.join(' '.join(c.lstrip('#').split()) for c in pyterm.comment_tokens(out))
                         notices = [int(x) for x in NOTICE.findall(words)]
                         residue = NOTICE.sub('', words).strip()
+                        if pv is not v:
+                            residue = ' '.join(x for x in residue.split() if x not in ('note', 'tail', '.'))
                     except pyterm.ParseError as e:
                         chk.violation('C10.syntax', 'not an expression (%s): %r' % (e, desc), desc)
                         continue
@@ -190,6 +217,8 @@ def check_c10(chk, args):
     # spec -> code: Printers.tla predicts the exact truncated text, '...and N more elements' comment included
     from checks import values_checks as VC
     VC.printers_binding(chk, vals, msls=(1, 1, 2, 3, 1000), name='truncation', per_value=2 if q else 4)
+    VC.printers_binding(chk, [pv for pv, v in printed if pv is not v], msls=(1, 1, 2, 3, 1000), name='truncation_x_comments',
+                        per_value=2 if q else 4)
     caselist = list(cases.values())
     can = []
     for c in caselist[:: max(1, len(caselist) // 20)][:20]:
